@@ -89,4 +89,4 @@ def is_valid(number):
 def format(number):
     """Reformat the number to the standard presentation format."""
     number = compact(number)
-    return ' '.join([number[:-4], number[-4], number[-3:]])
+    return ' '.join([number[:-4], number[-4:-3], number[-3:]]).strip()
